@@ -51,6 +51,15 @@ STMT_POS = [
     'with open("/dev/null") as fh_{N}:\n    print({L})',
     'global_{N} = lambda: [{L}, {L}]\nprint(global_{N}())',
     'print(f"{\'literal text {T}\'} {T} {{L}!s:>10}")',
+    'def kwdef_{N}(*, a={U}, b={U}, c={U}):\n    return a, b, c\nprint(kwdef_{N}())',
+    'def posdef_{N}(a={U}, b={U}, /, c={U}):\n    return a, b, c\nprint(posdef_{N}())',
+    'def varann_{N}(*rest: {U}, **more: {U}) -> {U}:\n    return rest, more\nprint(varann_{N}())',
+    'def kwann_{N}(*, k: {U} = 0, j: {U} = 1):\n    return k, j\nprint(kwann_{N}())',
+    'lam_{N} = lambda *, a={U}, b={U}, c={U}: (a, b, c)\nprint(lam_{N}())',
+    'lam2_{N} = lambda a={U}, b={U}, c={U}: (a, b, c)\nprint(lam2_{N}())',
+    'class Decorated_{N}:\n    def method(self, a={U}, *, b={U}, c={U}):\n        return a, b, c\nprint(Decorated_{N}().method())',
+    'def deco2_{N}(v, w):\n    return lambda f: f\n@deco2_{N}({U}, {U})\ndef target_{N}(x={U}):\n    return x\nprint(target_{N}())',
+    'class Base_{N}:\n    def __init_subclass__(cls, **kw):\n        cls.kw = kw\nclass Derived_{N}(Base_{N}, a={U}, b={U}, c={U}):\n    pass\nprint(Derived_{N}.kw)',
 ]
 SCOPES = [
     '{B}',
@@ -95,7 +104,8 @@ def generate(seed, index):
             I = '1'
             D = '"""%s"""' % (r.choice(strs).strip('\'"').replace('\\', '').replace('"', '') or 'doc')
             T = 'plain'
-            stmt = t.replace('{L}', L).replace('{S}', S).replace('{P}', P).replace('{I}', I).replace('{D}', D).replace('{T}', T).replace('{N}', str(uid))
+            U = "'only here %d'" % uid if r.random() < 0.7 else r.choice(['None', 'True', 'False'])
+            stmt = t.replace('{U}', U).replace('{L}', L).replace('{S}', S).replace('{P}', P).replace('{I}', I).replace('{D}', D).replace('{T}', T).replace('{N}', str(uid))
             stmts.append(stmt)
         body = '\n'.join(stmts)
         if 'class Body_' in scope or 'class Local_' in scope:
